@@ -108,6 +108,14 @@ def workload(seed, cfg, exe, big):
         n = rng.randint(2, 12)
         evs = events_from_word(rng, "S" * n, gen_times(rng, n, rng.choice(["nondec", "bad"])), lambda: [moderate_bits(rng)])
         b.add(3, [f2b(rng.choice([1.0, 1.0, 0.0, 0.5]))], evs, "stream/EWMAStream<f32>")
+    # EWMA with long update gaps of a whole number of seconds (the exponent of the power function is then a large whole number)
+    for _ in range(40 if not big else 1500):
+        n = rng.randint(2, 8)
+        t0 = rng.randint(0, 10**9); ts = [t0]
+        for _i in range(n - 1):
+            ts.append(ts[-1] + rng.choice([1, 10, 100, 1000, rng.randint(2, 5000)]) * 10**9)
+        evs = events_from_word(rng, "S" * n, ts, lambda: [moderate_bits(rng)])
+        b.add(3, [f2b(rng.choice([0.001, 0.01, 0.0001, 0.05, rng.random() * 0.01]))], evs, "stream/EWMAStream<f32>")
     sc, st, _ = b.build()
     cases += sc; tags += st
     powq = c02.make_pow_query(exe, cfg)
@@ -115,6 +123,13 @@ def workload(seed, cfg, exe, big):
     for _ in range(400 if not big else 8000):
         bb = rng.choice([f2b(x) for x in (0.0, 1.0, 0.5, 0.9, 0.1, 2.0, 10.0, 0.25, 0.99)] + [f2b(rng.random()), f2b(rng.uniform(0, 50))])
         ee = rng.choice([f2b(x) for x in (0.0, 1.0, 2.0, 0.5, -1.0, 3.0, 1e-3, 0.02, -0.5, 1e-6, -2.0)] + [f2b(rng.uniform(-4, 8))])
+        pp.append((bb, ee))
+    # whole-number and large exponents on bases near 1 (results stay finite): an integer-power shortcut, a saturating cast of the
+    # exponent or a reduced-precision path for long update gaps shows here and nowhere among the small exponents above
+    for _ in range(200 if not big else 4000):
+        bb = f2b(rng.choice([0.999, 1.001, 0.9999, 1.0001, 0.97, 1.03, 0.5, 2.0, 0.9, 1.0 - rng.random() * 1e-2, 1.0 + rng.random() * 1e-2]))
+        ee = f2b(rng.choice([10.0, 64.0, 100.0, 1000.0, 4096.0, -100.0, -1000.0, 65536.0, 1e6, -1e6, 2147483648.0, 16777216.0,
+                             float(rng.randint(5, 5000)), -float(rng.randint(5, 5000)), rng.uniform(-3000, 3000)]))
         pp.append((bb, ee))
     tbl = powq(pp)
     for (bb, ee) in pp:
@@ -209,7 +224,10 @@ def run(chk, replay=None):
                     if not (isinstance(x, int) and isinstance(y, int)) or not (0 <= x <= 0xFFFFFFFF and 0 <= y <= 0xFFFFFFFF): return False
                     if not is_finite_bits(x) or not is_finite_bits(y): return False
                     # a few ulps of the power function, amplified at most by the EWMA's running combination
-                    return abs(ulp_index(x) - ulp_index(y)) <= (8 if t.startswith("pow") else 64) or abs(b2f(x) - b2f(y)) <= 1e-5 * max(1.0, abs(b2f(x)))
+                    if t.startswith("pow"):
+                        # the power function alone: last ulps, or both results in the subnormal range
+                        return abs(ulp_index(x) - ulp_index(y)) <= 8 or (abs(b2f(x)) < 2e-38 and abs(b2f(y)) < 2e-38)
+                    return abs(ulp_index(x) - ulp_index(y)) <= 64 or abs(b2f(x) - b2f(y)) <= 1e-5 * max(1.0, abs(b2f(x)))
                 if len(a) != len(b) or not all(close(x, y) for x, y in zip(a, b)):
                     chk.violation("%s differs between %s and %s beyond the power function's last ulps: %s vs %s" % (t, base, name, a[:8], b[:8]),
                                   {"case": cases0[k], "case_other": cases1[k], "impl": a[:60], "impl_other": b[:60], "config": base, "config_other": name}, True,
